@@ -252,6 +252,7 @@ fn skeletons(src: &mut Src) -> Result<String, String> {
     let p = "src/iterators/sync_iterators/prod_iter.rs";
     let c = "src/iterators/sync_iterators/cons_iter.rs";
     let d = "src/iterators/sync_iterators/detached.rs";
+    let w = "src/iterators/sync_iterators/work_iter.rs";
     let b = "src/ring_buffer/wrappers/buf_ref.rs";
     let mut o = String::new();
     for (path, owner, func, lean) in [
@@ -276,6 +277,18 @@ fn skeletons(src: &mut Src) -> Result<String, String> {
         (c, "ConsIter<'buf,B,W>", "peek_slice", "skelPeekSlice"),
         (c, "ConsIter<'buf,B,W>", "peek_available", "skelPeekAvailable"),
         (d, "Detached<I>", "attach", "skelAttach"),
+        (d, "Detached<I>", "reset_index", "skelDetReset"),
+        (d, "Detached<I>", "set_index", "skelDetSetIndex"),
+        (d, "Detached<I>", "go_back", "skelDetGoBack"),
+        (d, "Detached<I>", "advance", "skelDetAdvance"),
+        (d, "Detached<I>", "sync_index", "skelDetSync"),
+        (c, "ConsIter<'buf,B,W>", "reset_index", "skelConsReset"),
+        (w, "WorkIter<'buf,B>", "reset_index", "skelWorkReset"),
+        (p, "PrivateMRBIterator<T>forProdIter", "_available", "skelProdAvailable"),
+        (w, "PrivateMRBIterator<T>forWorkIter", "_available", "skelWorkAvailable"),
+        (c, "PrivateMRBIterator<T>forConsIter", "_available", "skelConsAvailable"),
+        (it, "PrivateMRBIterator", "check", "skelCheck"),
+        (it, "PrivateMRBIterator", "advance_local", "skelAdvanceLocal"),
         (b, "BufRef<'_,B>", "set_prod_alive", "skelDropProd"),
         (b, "BufRef<'_,B>", "set_work_alive", "skelDropWork"),
         (b, "BufRef<'_,B>", "set_cons_alive", "skelDropCons"),
